@@ -90,13 +90,16 @@ def main():
     from tlexport import cipher_suite_parser as csp
     oracle = json.load(open(os.path.join(HERE, "specs", "iana_tls_cipher_suites.json")))["suites"]
     failures, accepted = [], []
+    first = {}
     n = 0
     for code in range(65536):
         sid = code.to_bytes(2, "big")
         n += 1
         try:
             res = csp.split_cipher_suite(sid)
+            first[code] = None if res is None else json.dumps(observed(res), sort_keys=True)
         except Exception as e:
+            first[code] = "raised " + type(e).__name__
             failures.append({"code": sid.hex(), "what": "raised %s: %s" % (type(e).__name__, e)})
             continue
         name = oracle.get("%04X" % code)
@@ -122,7 +125,22 @@ def main():
             diff["algo_class"] = (got["algo_class"], cls_ok)
         if diff:
             failures.append({"code": sid.hex(), "what": "parameters differ from what the IANA name denotes", "iana": name, "diff": diff})
-    print(json.dumps({"evaluations": n, "accepted": accepted, "failures": failures, "table_size": len(csp.cipher_suites)}))
+    # the exhaustion argument needs the function to be a FUNCTION of the code point: two more sweeps in the same process
+    # (ascending, then descending) must give every code point the answer of its FIRST evaluation above (no memoised or
+    # otherwise carried state)
+    def answer(code):
+        try:
+            r = csp.split_cipher_suite(code.to_bytes(2, "big"))
+            return None if r is None else json.dumps(observed(r), sort_keys=True)
+        except Exception as e:
+            return "raised " + type(e).__name__
+    unstable = []
+    for order in (range(65536), range(65535, -1, -1)):
+        for code in order:
+            again = answer(code)
+            if again != first[code] and len(unstable) < 50:
+                unstable.append({"code": "%04x" % code, "what": "the answer depends on earlier calls in the same process", "first": first[code], "later": again})
+    print(json.dumps({"evaluations": n, "accepted": accepted, "failures": failures, "table_size": len(csp.cipher_suites), "unstable": unstable}))
 
 
 if __name__ == "__main__":
